@@ -25,6 +25,12 @@ type Prov struct {
 	// slices / pointers in it). Writing the object itself is not a write to the
 	// global; handing it out makes the global's memory reachable from it.
 	Holds map[*ssa.Global]bool
+	// HoldsParams: bit i: the (fresh) object contains references into memory
+	// reachable from parameter i (a new slice filled with the receiver's
+	// element pointers). Writing the object itself is not a write to the
+	// parameter; loading from it, or handing it to a callee that writes
+	// through what it loads, reaches the parameter's memory.
+	HoldsParams uint64
 	// DeepVia: for a Deep bit i, the fields of parameter i's pointee struct
 	// through which the memory was reached (first load). -1 / empty: unknown.
 	DeepVia map[int]map[int]bool
@@ -69,6 +75,10 @@ func (p *Prov) merge(q Prov) bool {
 	}
 	if q.Fresh && !p.Fresh {
 		p.Fresh = true
+		ch = true
+	}
+	if p.HoldsParams|q.HoldsParams != p.HoldsParams {
+		p.HoldsParams |= q.HoldsParams
 		ch = true
 	}
 	if q.Unknown && !p.Unknown {
@@ -138,6 +148,11 @@ func (p Prov) String() string {
 	}
 	sort.Strings(gs)
 	s = append(s, gs...)
+	for k := 0; k < 64; k++ {
+		if p.HoldsParams&(1<<uint(k)) != 0 {
+			s = append(s, "holds-param"+string(rune('0'+k)))
+		}
+	}
 	if p.Fresh {
 		s = append(s, "fresh")
 	}
@@ -639,8 +654,29 @@ func (a *effectsAnalysis) update(fn *ssa.Function, v ssa.Value) bool {
 			}
 			np.Holds[g] = true
 		}
+		np.HoldsParams = cont.Params | cont.HoldsParams
 		return a.set(v, np)
-	case *ssa.MakeSlice, *ssa.MakeMap, *ssa.MakeChan:
+	case *ssa.MakeSlice:
+		// a new slice: fresh; what is stored into its elements (index stores,
+		// copy, callees handed the slice) is remembered as what it holds
+		np := Prov{Fresh: true}
+		var cont Prov
+		a.allocContents(x, &cont, map[ssa.Value]bool{})
+		for g := range cont.Globals {
+			if np.Holds == nil {
+				np.Holds = map[*ssa.Global]bool{}
+			}
+			np.Holds[g] = true
+		}
+		for g := range cont.Holds {
+			if np.Holds == nil {
+				np.Holds = map[*ssa.Global]bool{}
+			}
+			np.Holds[g] = true
+		}
+		np.HoldsParams = cont.Params | cont.HoldsParams
+		return a.set(v, np)
+	case *ssa.MakeMap, *ssa.MakeChan:
 		return a.set(v, Prov{Fresh: true})
 	case *ssa.MakeClosure:
 		p := Prov{Fresh: true}
@@ -714,6 +750,12 @@ func (a *effectsAnalysis) update(fn *ssa.Function, v ssa.Value) bool {
 		}
 		src := a.get(x.X)
 		res := src.deepen()
+		if src.HoldsParams != 0 {
+			// loading from a fresh object that holds references into a
+			// parameter's memory yields that memory
+			res.Params |= src.HoldsParams
+			res.Deep |= src.HoldsParams
+		}
 		// first-level loads: remember through which field of the parameter's
 		// pointee the deeper memory is reached
 		first := src.Params &^ src.Deep
@@ -941,6 +983,21 @@ func (a *effectsAnalysis) callResultProv(x *ssa.Call, idx int) Prov {
 		for g := range rp.Holds {
 			p.merge(Prov{Holds: map[*ssa.Global]bool{g: true}})
 		}
+		for i := range f.Params {
+			if rp.HoldsParams&(1<<uint(i)) != 0 && i < len(full) {
+				q := a.get(full[i])
+				p.HoldsParams |= q.Params | q.HoldsParams
+				for g := range q.Globals {
+					p.merge(Prov{Holds: map[*ssa.Global]bool{g: true}})
+				}
+				for g := range q.Holds {
+					p.merge(Prov{Holds: map[*ssa.Global]bool{g: true}})
+				}
+				if q.Unknown {
+					p.Unknown = true
+				}
+			}
+		}
 		if (rp.Params|rp.Deep)>>uint(len(f.Params)) != 0 {
 			p.Unknown = true // the result may reference a captured variable of the closure
 		}
@@ -1124,6 +1181,12 @@ func (a *effectsAnalysis) callEffects(fn *ssa.Function, ef *Effects, site ssa.Ca
 					}
 				}
 				if deep {
+					if p.HoldsParams != 0 {
+						// the callee writes through what it loads from the argument,
+						// and the argument holds references into our parameters
+						p.Params |= p.HoldsParams
+						p.Deep |= p.HoldsParams
+					}
 					first := p.Params &^ p.Deep
 					p = p.deepen()
 					// the callee reaches what it writes through known fields of its
